@@ -165,7 +165,7 @@ def _mk(rng, algo, vect, T, E, shared, other, flags=None, **kw):
         "E": int(E),
         "shared": int(shared),
         "other": int(other),
-        "obs": kw.get("obs") or ("dict", "dict", "image", "vector", "vector", "vector", "vector")[int(rng.integers(0, 7))],
+        "obs": kw.get("obs") or ("dict", "dict", "image", "vector", "vector", "tuple", "vector", "tuple")[int(rng.integers(0, 8))],
         "norm_img": bool(rng.random() < 0.5),
         "act": kw.get("act") or ("discrete", "box2", "box1")[int(rng.integers(0, 3))],
         "gamma": float(kw["gamma"]) if "gamma" in kw else float(GRID[int(rng.integers(0, 4))]),
@@ -246,7 +246,7 @@ def cases(tier, seed):
         out.append(_mk(rng, "IPPO", True, 1, E, 1, 0))
         out.append(_mk(rng, "IPPO", True, 1, E, 2, 1))
     for act in ("discrete", "box1", "box2"):
-        for obs in ("vector", "dict"):
+        for obs in ("vector", "dict", "tuple"):
             out.append(_mk(rng, "PPO", True, 4, 3, 1, 0, act=act, obs=obs))
             out.append(_mk(rng, "PPO", False, 4, 1, 1, 0, act=act, obs=obs))
             out.append(_mk(rng, "IPPO", True, 4, 3, 2, 1, act=act, obs=obs))
@@ -381,6 +381,8 @@ class Rollout:
         other = ai >= self.case["shared"]
         if self.obs_kind == "dict":
             return {"a": (0, 3), "b": (3, 2)}
+        if self.obs_kind == "tuple":
+            return {0: (0, 3), 1: (3, 2)}  # members of a Tuple space, addressed by position
         if self.obs_kind == "image":
             return {None: (0, 8)}  # the 8 features as a (1, 2, 4) image whose bounds are not [0, 1]
         return {None: (0, 4 if other else 3)}
@@ -393,6 +395,8 @@ class Rollout:
             return spaces.Box(-8.0, 8.0, (1, 2, 4), np.float32)
         if None in lv:
             return spaces.Box(-8.0, 8.0, (lv[None][1],), np.float32)
+        if self.obs_kind == "tuple":
+            return spaces.Tuple([spaces.Box(-8.0, 8.0, (d,), np.float32) for _k, (_o, d) in sorted(lv.items())])
         return spaces.Dict({k: spaces.Box(-8.0, 8.0, (d,), np.float32) for k, (_o, d) in lv.items()})
 
     def act_space(self, ai):
@@ -416,6 +420,8 @@ class Rollout:
             return self.leaf_vec(x, *lv[None]).reshape(1, 2, 4)
         if None in lv:
             return self.leaf_vec(x, *lv[None])
+        if self.obs_kind == "tuple":
+            return tuple(self.leaf_vec(x, o, d) for _k, (o, d) in sorted(lv.items()))
         return {k: self.leaf_vec(x, o, d) for k, (o, d) in lv.items()}
 
     def act_of(self, g):
@@ -428,6 +434,8 @@ class Rollout:
     def _stack_obs(rows):
         if isinstance(rows[0], dict):
             return {k: np.stack([r[k] for r in rows]) for k in rows[0]}
+        if isinstance(rows[0], tuple):
+            return tuple(np.stack([r[i] for r in rows]) for i in range(len(rows[0])))
         return np.stack(rows)
 
     def _agent_lists(self, ai, flag_style="ma_loop"):
@@ -484,7 +492,7 @@ class Rollout:
 def _net_config(obs_kind):
     if obs_kind == "image":
         return {"encoder_config": {"channel_size": [4], "kernel_size": [2], "stride_size": [1]}, "head_config": {"hidden_size": [8]}}
-    if obs_kind == "dict":
+    if obs_kind in ("dict", "tuple"):
         return {"encoder_config": {"latent_dim": 8, "vector_space_mlp": False}, "head_config": {"hidden_size": [8]}}
     return {"encoder_config": {"hidden_size": [8]}, "head_config": {"hidden_size": [8]}}
 
@@ -953,7 +961,14 @@ def _decode_rows(rec, case, ro: Rollout, site, exp, adv_by_gid):
 
     # ---- states: every leaf -> x (from component 0), whole leaf row must be the table row
     sid = None
-    leaves = states if isinstance(states, dict) else {None: states}
+    if isinstance(states, (tuple, list)):
+        leaves = dict(enumerate(states))
+    elif hasattr(states, "keys") and all(str(k).startswith("tuple_obs_") for k in states.keys()) and len(list(states.keys())):
+        leaves = {int(str(k).rsplit("_", 1)[1]): states[k] for k in states.keys()}
+    else:
+        leaves = states if isinstance(states, dict) or hasattr(states, "keys") else {None: states}
+    if not isinstance(leaves, dict):
+        leaves = {k: leaves[k] for k in leaves.keys()}
     for key, leaf in leaves.items():
         a = _np(leaf, np.float32)
         if a.size % N:
